@@ -111,17 +111,35 @@ func readSeq(f *ssa.Function) []ioField {
 	for _, b := range f.Blocks {
 		for _, ins := range b.Instrs {
 			call, ok := ins.(*ssa.Call)
-			if !ok || !call.Call.IsInvoke() || !isSliceRW(call.Call.Value.Type(), "SliceReader") {
+			if !ok {
 				continue
 			}
-			name := call.Call.Method.Name()
-			w, known := readerWidths[name]
-			if name == "ReadBits" {
-				known = true
-				if cs, ok := constSet(call.Call.Args[0], 0); ok && len(cs) == 1 {
-					w = cs[0]
-				} else {
-					w = -3
+			var name string
+			var w int64
+			known := false
+			if call.Call.IsInvoke() && isSliceRW(call.Call.Value.Type(), "SliceReader") {
+				name = call.Call.Method.Name()
+				w, known = readerWidths[name]
+				if name == "ReadBits" {
+					known = true
+					if cs, ok := constSet(call.Call.Args[0], 0); ok && len(cs) == 1 {
+						w = cs[0]
+					} else {
+						w = -3
+					}
+				}
+			} else if h := call.Call.StaticCallee(); h != nil && h.Signature.Recv() != nil && strings.HasSuffix(h.Signature.Recv().Type().String(), "bits.Reader") {
+				// the bit reader of the configuration boxes (dac3, dec3): Read(n) / ReadFlag()
+				switch h.Name() {
+				case "Read":
+					known = true
+					if cs, ok := constSet(call.Call.Args[1], 0); ok && len(cs) == 1 {
+						w = cs[0]
+					} else {
+						w = -3
+					}
+				case "ReadFlag":
+					known, w = true, 1
 				}
 			}
 			if !known {
